@@ -12,6 +12,7 @@ package queue
 //@ func (*queue.Queue).size
 //@   property C05
 //@   inline
+//@   lock q.mu : R
 
 //@ func (*queue.Queue).Enqueue
 //@   property C05 C01 C02
@@ -53,3 +54,5 @@ package queue
 //@   lock q.mu : none
 //@   modifies q.items
 //@   ensures len(q.items) == 0
+
+//@ guards queue.Queue.mu : items, elems(items)
